@@ -150,10 +150,12 @@ NamedVals == [ d0 |-> VN(VB(FALSE), "def"), d1 |-> VN(VB(TRUE), "def"), d2 |-> V
                d4 |-> VN(VD(0, 0), "def"), d5 |-> VN(VD(5, 1), "def"), d6 |-> VN(VS(<<>>), "def"), d7 |-> VN(VS(<<97>>), "def"),
                d8 |-> VN(VI(0), "i8"), d9 |-> VN(VI(-1), "i8"), e0 |-> VN(VI(0), "i64"), e1 |-> VN(VI(0), "u16"), e2 |-> VN(VI(7), "u64"),
                e3 |-> VN(VI(0), "f32"), e4 |-> VN(VI(2), "f32"), e5 |-> VN(VI(0), "u64") ]
-NamedCtx == [n \in DOMAIN NamedVals |-> NamedVals[n]]
+NamedCtx == [n \in DOMAIN NamedVals |-> NamedVals[n]] @@ ("np" :> [t |-> "nilptr"])
 NamedCases == {[fam |-> "ifnamed", prog |-> <<IfElse(Var(n), <<T1(65)>>, <<T1(69)>>), If(<<LB(FALSE), Var(n)>>, <<<<T1(66)>>, <<T1(67)>>>>, <<T1(68)>>, TRUE),
                                              IfElse(Un("not", Var(n)), <<T1(78)>>, <<T1(89)>>), PrintS(Cond(Var(n), LI(1), LI(2)))>>,
                  ctx |-> NamedCtx, tags |-> {"if", "named", "kind:" \o NamedVals[n].kind, "under:" \o NamedVals[n].u.t}] : n \in DOMAIN NamedVals}
+              \cup {[fam |-> "ifnamed", prog |-> <<IfElse(Var("np"), <<T1(65)>>, <<T1(69)>>), IfElse(Un("not", Var("np")), <<T1(78)>>, <<T1(89)>>), PrintS(Cond(Var("np"), LI(1), LI(2)))>>,
+                     ctx |-> NamedCtx, tags |-> {"if", "named", "nilpointer"}]}
               \cup {[fam |-> "ifnamed", prog |-> <<For1("x", Var("xs"), <<IfElse(Var("x"), <<T1(65)>>, <<T1(69)>>)>>)>>,
                      ctx |-> ("xs" :> VL(<<NamedVals.d0, NamedVals.d1, NamedVals.d2, NamedVals.d6, NamedVals.d7, NamedVals.e3>>)), tags |-> {"if", "named", "inloop"}]}
 
@@ -178,12 +180,28 @@ GlobalProgs == {<<PrintS(Var("g")), T1(124), Set("g", LI(5)), PrintS(Var("g")), 
 GlobalCases == {[fam |-> "global", prog |-> p, ctx |-> cx, globals |-> ("g" :> VI(77)) @@ ("h" :> VS(<<104>>)), tags |-> {"set", "global"}]
                 : p \in GlobalProgs, cx \in {EmptyFn, ("h" :> VI(3))}}
 
-AllCases == NamedCases \cup RecCases \cup GlobalCases \cup IfCases \cup EmptyBranchCases \cup NullCases \cup CompIfCases \cup LitIfCases \cup LoopCases \cup KvCases \cup NestCases \cup Nest3 \cup SetCases
+\* ---- a macro of the same name does not hide what set, a loop or a parameter binds; a child's top-level set ----
+NameClashCases ==
+    {[fam |-> "clash", ctx |-> EmptyFn, tags |-> {"set", "macroname"}, tps |-> EmptyFn,
+      prog |-> <<Macro("m1", <<>>, <<T1(77)>>), Set("m1", LI(1)), T1(91), PrintS(Var("m1")), T1(93), IfElse(Bin("==", Var("m1"), LI(1)), <<T1(111)>>, <<T1(120)>>),
+                 For1("m1", Lit(IntList(2)), <<PrintS(Var("m1")), T1(44)>>), PrintS(MCall("_self", "m1", <<>>))>>],
+     [fam |-> "clash", ctx |-> EmptyFn, tags |-> {"set", "macroname", "param"}, tps |-> EmptyFn,
+      prog |-> <<Macro("m1", <<Param("m1"), Param("m2")>>, <<T1(40), PrintS(Var("m1")), PrintS(Var("m2")), T1(41)>>), Macro("m2", <<>>, <<T1(78)>>),
+                 PrintS(MCall("_self", "m1", <<LI(5), LI(6)>>))>>],
+     [fam |-> "clash", ctx |-> ("x" :> VI(0)), tags |-> {"set", "childset"},
+      tps |-> ("t1" :> <<T1(91), Block("b1", <<T1(80)>>), PrintS(Var("x")), T1(93)>>),
+      prog |-> <<Extends(LS(NT.t1)), Set("x", LI(1)), Set("y", Bin("+", Var("x"), LI(1))), Block("b1", <<PrintS(Var("x")), T1(44), PrintS(Var("y"))>>), T1(106)>>],
+     [fam |-> "clash", ctx |-> ("x" :> VI(0)), tags |-> {"set", "childset", "chain3"},
+      tps |-> ("t1" :> <<Extends(LS(NT.t2)), Set("y", LI(5)), Block("b1", <<PrintS(Var("x")), PrintS(Var("y")), PrintS(Call("parent", <<>>))>>)>>)
+              @@ ("t2" :> <<T1(91), Block("b1", <<T1(80), PrintS(Var("y"))>>), Block("b2", <<PrintS(Var("x"))>>), T1(93)>>),
+      prog |-> <<Extends(LS(NT.t1)), Set("x", LI(1)), Block("b2", <<T1(60), PrintS(Var("x")), PrintS(Var("y")), T1(62)>>)>>]}
+
+AllCases == NameClashCases \cup NamedCases \cup RecCases \cup GlobalCases \cup IfCases \cup EmptyBranchCases \cup NullCases \cup CompIfCases \cup LitIfCases \cup LoopCases \cup KvCases \cup NestCases \cup Nest3 \cup SetCases
 
 Tps(c) == ("main" :> c.prog) @@ (IF "tps" \in DOMAIN c THEN c.tps ELSE EmptyFn)
 World(c) == MkW(Tps(c), {}, {}, NoFault)
 \* globals are the outermost scope: the context wins over them, and so does everything the template binds
-Ref(c) == Render(World(c), "main", IF "globals" \in DOMAIN c THEN c.ctx @@ c.globals ELSE c.ctx)
+Ref(c) == Render(IF "globals" \in DOMAIN c THEN WithGlobals(World(c), c.globals) ELSE World(c), "main", c.ctx)
 
 CaseOf(c) ==
     LET ref == Ref(c) IN
